@@ -218,8 +218,13 @@ def judge(steps_by_h, groups, pnames, pvars=(), fvar=None):
                 if e > TOL and d12 > FD_AGREE * e:
                     out["excluded"]["fd_inconsistent"] = out["excluded"].get("fd_inconsistent", 0) + 1
                     continue
-                if e > out["maxerr"].get(name, -1.0):
-                    out["maxerr"][name] = e
+                if d12 <= 0.1 * e or e <= 1.0e-8:
+                    # calibration record: only mismatches that both finite differences confirm (the rest is FD noise,
+                    # recorded apart)
+                    if e > out["maxerr"].get(name, -1.0):
+                        out["maxerr"][name] = e
+                elif d12 > out.get("fd_noise_max", 0.0):
+                    out["fd_noise_max"] = d12
                 if e > TOL:
                     k = int(np.argmax(np.abs(Ja - J2)))
                     if len(out["bad"]) < 8:
@@ -712,9 +717,11 @@ def main():
         s = r.summary
         if s:
             for k in tot:
-                tot[k] += s[k]
+                if k != "fd_noise_max":
+                    tot[k] += s[k]
             for k, v in s["excluded"].items():
                 exc[k] = exc.get(k, 0) + v
+            tot["fd_noise_max"] = max(tot.get("fd_noise_max", 0.0), s.get("fd_noise_max", 0.0))
             sd = u._sub(sub)
             for k in ("iterates", "blocks", "inelastic", "steps", "nonconverged"):
                 sd["classes"]["n." + k] = sd["classes"].get("n." + k, 0) + s[k]
